@@ -85,14 +85,15 @@ Print Assumptions C10_roundtrip_program.
    was consumed. *)
 Theorem C10_lex_number : forall (xid_start xid_continue : N -> bool),
   (forall c, is_ascii_digit c = true -> xid_start c = false) ->
-  forall (n : numlit) (rest : str) (d : nat),
+  forall (n : numlit) (rest : str) (d : list bool) (last : option token),
   wf_num n = true -> num_stop rest = true -> based_prefix (pr_num n ++ rest) = false ->
-  scan_single_token xid_start xid_continue d (pr_num n ++ rest) = LOk (Some (TNumber (pr_num n)), rest, d).
+  scan_single_token xid_start xid_continue d last (pr_num n ++ rest) = LOk (Some (TNumber (pr_num n)), rest, d).
 Proof. exact lex_number_complete. Qed.
 Print Assumptions C10_lex_number.
 
-Theorem C10_lex_number_sound : forall (xid_start xid_continue : N -> bool) (d : nat) (cs l r : str) (d' : nat),
-  scan_single_token xid_start xid_continue d cs = LOk (Some (TNumber l), r, d') ->
+Theorem C10_lex_number_sound : forall (xid_start xid_continue : N -> bool) (d : list bool) (last : option token)
+    (cs l r : str) (d' : list bool),
+  scan_single_token xid_start xid_continue d last cs = LOk (Some (TNumber l), r, d') ->
   exists n, wf_num n = true /\ l = pr_num n /\ cs = l ++ r /\ d' = d.
 Proof. exact lex_number_sound. Qed.
 Print Assumptions C10_lex_number_sound.
@@ -103,16 +104,18 @@ Print Assumptions C10_lex_number_sound.
    field access), is one token: the keyword it spells, else an Identifier with that lexeme.
    Conversely every Identifier token is such a word, it is not a keyword, it ends where no continue
    character follows, and nothing else was consumed. *)
-Theorem C10_lex_ident : forall (xid_start xid_continue : N -> bool) (c : N) (body rest : str) (d : nat),
+Theorem C10_lex_ident : forall (xid_start xid_continue : N -> bool) (c : N) (body rest : str)
+    (d : list bool) (last : option token),
   early c = false -> is_identifier_start xid_start c = true ->
   forallb (is_identifier_continue xid_continue) body = true ->
   ident_stop xid_start xid_continue rest = true ->
-  scan_single_token xid_start xid_continue d (c :: body ++ rest) = LOk (Some (word_token (c :: body)), rest, d).
+  scan_single_token xid_start xid_continue d last (c :: body ++ rest) = LOk (Some (word_token (c :: body)), rest, d).
 Proof. exact lex_ident_complete. Qed.
 Print Assumptions C10_lex_ident.
 
-Theorem C10_lex_ident_sound : forall (xid_start xid_continue : N -> bool) (d : nat) (cs l r : str) (d' : nat),
-  scan_single_token xid_start xid_continue d cs = LOk (Some (TIdent l), r, d') ->
+Theorem C10_lex_ident_sound : forall (xid_start xid_continue : N -> bool) (d : list bool) (last : option token)
+    (cs l r : str) (d' : list bool),
+  scan_single_token xid_start xid_continue d last cs = LOk (Some (TIdent l), r, d') ->
   exists c body, l = c :: body /\ is_identifier_start xid_start c = true
                  /\ forallb (is_identifier_continue xid_continue) body = true
                  /\ keyword_of l = None /\ cs = l ++ r
@@ -337,5 +340,5 @@ Example C10_ex_identifiers :
   /\ ident_stop st co [32]%N = true /\ ident_stop st co [46; 49]%N = false /\ ident_stop st co [46; 97]%N = true
   /\ word_token [120; 121; 49]%N = TIdent [120; 121; 49]%N
   /\ word_token [108; 101; 116]%N = TKw KLet
-  /\ scan_single_token st co 0 [120; 121; 49; 32; 43]%N = LOk (Some (TIdent [120; 121; 49]%N), [32; 43]%N, 0%nat).
+  /\ scan_single_token st co [] None [120; 121; 49; 32; 43]%N = LOk (Some (TIdent [120; 121; 49]%N), [32; 43]%N, []).
 Proof. vm_compute. repeat split; reflexivity. Qed.
